@@ -432,6 +432,14 @@ func (z *ZodSlice[T, R]) extractPtrForEngine(value any) (*[]T, bool) {
 	if s, ok := value.([]T); ok {
 		return &s, true
 	}
+	// A pointer to a slice of another element type (*[]int32 for a schema
+	// over []any): convert the slice it points to, as extractForEngine does
+	// for the slice itself.
+	if rv := reflect.ValueOf(value); rv.Kind() == reflect.Pointer && !rv.IsNil() && rv.Elem().Kind() == reflect.Slice {
+		if s, ok := z.extractForEngine(rv.Elem().Interface()); ok {
+			return &s, true
+		}
+	}
 	return nil, false
 }
 
